@@ -118,8 +118,8 @@ def handle (st : St) (ws : List String) : St × String :=
 /-! ### `gx …`: generated extension types (C09)
 
 ```
-gx def <id> <name>:<printAs>:<print 0|1>:<clone 0|1>:<zero>,…    (`-` = no extra fields)           -> ok
-gx new <reg> <id> <name> <msg> <src> V:<s>,…      extension factory + plain GError with the same base -> ok
+gx def <id> <name>:<printAs>:<print 0|1>:<clone 0|1>:<zero>:<kind>:<tag>,…    (`-` = no extra fields)           -> ok
+gx new <reg> <id> <name> <msg> <src> V:<s>,… I:<n>,…   extension factory + plain GError with the same base -> ok
 gx call <dst> <reg> <Method> <site> F:<s> P:<s>,.. S:<frames> E:<elems>
                                                    same call on both -> <obs ext> | <obs base> | v=<s>,…
 gx err <reg>                                       Error() of both without stack text -> <s> | <s>
@@ -134,7 +134,7 @@ structure XSt where
 
 def decField (w : String) : Option FieldDef :=
   match w.splitOn ":" with
-  | [n, p, pr, cl, z] => do
+  | [n, p, pr, cl, z, _kind, _tag] => do
     let n ← dec n
     let p ← dec p
     let z ← dec z
@@ -150,7 +150,7 @@ def handleX (st : XSt) (ws : List String) : XSt × String :=
     match id.toNat?, (if spec == "-" then some [] else (spec.splitOn ",").mapM decField) with
     | some id, some d => ({ st with defs := (id, d) :: st.defs.filter (fun p => p.1 != id) }, "ok")
     | _, _ => (st, "bad-op")
-  | ["new", r, id, n, m, s, v] =>
+  | ["new", r, id, n, m, s, v, _idx] =>
     match r.toNat?, id.toNat?, dec n, dec m, dec s, (field "V:" v).bind decList with
     | some r, some id, some n, some m, some s, some vs =>
       match st.defs.find? (fun p => p.1 == id) with
